@@ -33,6 +33,21 @@ def gen_scenario(rng, nops=None):
     epoch = "-"
     state = {"chan": False, "cur": "-"}
     allow_race = rng.random() < 0.06
+    blocks = rng.random() < 0.4          # scenario with parked deliveries / deferred OnTrack verdicts
+
+    def mgr_data(k):
+        """payload of the version the manager currently stores for k (what a correct backend's PrevData is relative to):
+        the newest pair provided while some connection tracked the key"""
+        return mgr.get(k, (0, None))[1] if any(k in tracked[c] for c in CONNS) else None
+
+    def mgr_see(k, v, d):
+        if any(k in tracked[c] for c in CONNS):
+            if v > mgr.get(k, (0, None))[0]:
+                mgr[k] = (v, d)
+        else:
+            mgr.pop(k, None)
+    mgr = {}
+    pending_tracks = []
 
     def maybe_flip(ep):
         """the manager flips its stored epoch when an op carries a different one (versioned, channel state exists)"""
@@ -40,6 +55,7 @@ def gen_scenario(rng, nops=None):
         if mode != "v" or not state["chan"] or ep == state["cur"]:
             return
         state["cur"] = ep
+        mgr.clear()
         for c in CONNS:
             if tracked[c]:
                 subd.pop(c, None)
@@ -51,6 +67,9 @@ def gen_scenario(rng, nops=None):
 
     nops = nops or rng.randint(8, 40)
     for _ in range(nops):
+        for kk in list(mgr):
+            if not any(kk in tracked[c] for c in CONNS):
+                mgr.pop(kk)          # the entry is deleted when its last subscriber leaves
         r = rng.random()
         free = [c for c in CONNS if c not in subd]
         live = [c for c in CONNS if c in subd]
@@ -88,6 +107,7 @@ def gen_scenario(rng, nops=None):
         elif r < 0.70:
             # backend poll response for 1..3 keys
             items = []
+            pending_seen = []
             for k in rng.sample(KEYS, rng.randint(1, 3)):
                 if rng.random() < 0.05:
                     items.append(f"{k}:x")
@@ -110,11 +130,15 @@ def gen_scenario(rng, nops=None):
                     backend[k] = (bv, bd)
                     hist[k].append((bv, bd))
                     newest[k] = (bv, bd)
+                    pending_seen.append((k, bv, bd))
                     if not keep and rng.random() < 0.6:
                         # PrevData: payload of the version the manager holds (correct), or - race - of the
                         # version the in-flight poll asked about
-                        base = nd_
-                        if allow_race and prevd and prevd != nd_ and rng.random() < 0.5:
+                        for kk in list(mgr):
+                            if not any(kk in tracked[c] for c in CONNS):
+                                mgr.pop(kk)
+                        base = mgr_data(k)
+                        if allow_race and prevd and prevd != base and rng.random() < 0.5:
                             base = prevd
                         items.append(f"{k}:{bv}:{bd}:{base or '-'}")
                     else:
@@ -129,7 +153,77 @@ def gen_scenario(rng, nops=None):
                 hist = {k: [] for k in KEYS}
                 items = []
             maybe_flip(ep)
+            for (kk, vv, dd) in pending_seen:
+                mgr_see(kk, vv, dd)
+            for w in items:
+                pp = w.split(":")
+                if len(pp) >= 3 and (pp[0], int(pp[1]), pp[2]) not in pending_seen:
+                    mgr_see(pp[0], int(pp[1]), pp[2])
             lines.append(f"resp {ep} " + " ".join(items))
+        elif mode == "v" and blocks and rng.random() < 0.5 and not pending_tracks and \
+                [(c, k) for c in live for k in tracked[c] if sum(1 for c2 in CONNS if k in tracked[c2]) == 1]:
+            # race block: a publish whose delivery parks between the optimistic check and the re-check under the
+            # lock, then deliveries / re-tracks / unsubscribes of the same connection, then the parked one resumes
+            c, k = rng.choice([(c, k) for c in live for k in sorted(tracked[c])
+                               if sum(1 for c2 in CONNS if k in tracked[c2]) == 1])
+            nv_, nd_ = newest.get(k, (0, None))
+            v = nv_ + 1
+            d = fresh(nd_[0] if nd_ and rng.random() < 0.7 else None)
+            newest[k] = (v, d)
+            hist[k].append((v, d))
+            mgr_see(k, v, d)
+            lines.append(f"bgpub {k} {v} {state['cur']} {d}")
+            q = rng.random()
+            if q < 0.35:
+                tracked[c][k] = 0
+                lines.append(f"trk {c} {k} 0")                     # keep: cached item of the same version
+            elif q < 0.7:
+                others = [c2 for c2 in live if c2 != c]
+                if others:
+                    c2 = rng.choice(others)
+                    tracked[c2][k] = 0
+                    lines.append(f"trk {c2} {k} 0")                # !keep: needsBroadcast, then the same version again
+                lines.append(f"resp {state['cur']} {k}:{v}:{d}")
+            elif q < 0.8:
+                tracked[c].pop(k, None)
+                lines.append(f"utk {c} {k}")
+            elif q < 0.9:
+                v2, d2 = v + 1, fresh(d[0])
+                newest[k] = (v2, d2)
+                hist[k].append((v2, d2))
+                mgr_see(k, v2, d2)
+                lines.append(f"pub {k} {v2} {state['cur']} {d2}")
+            lines.append("rel")
+        elif blocks and rng.random() < 0.3 and not pending_tracks:
+            # deferred OnTrack verdict; the subscription may end / be replaced before it arrives
+            c, k = rng.choice(live), rng.choice(KEYS)
+            lines.append(f"trkd {c} {k} 0")
+            valid = True
+            q = rng.random()
+            if q < 0.45:
+                lines.append(f"unsub {c}")
+                tracked[c] = {}
+                lines.append(f"sub {c} delta={subd[c]}")
+                valid = False
+            elif q < 0.6:
+                lines.append(f"unsub {c}")
+                tracked[c] = {}
+                subd.pop(c)
+                valid = False
+            elif q < 0.8 and mode == "v":
+                k2 = rng.choice(KEYS)
+                nv_, nd_ = newest.get(k2, (0, None))
+                d = fresh(nd_[0] if nd_ else None)
+                newest[k2] = (nv_ + 1, d)
+                hist[k2].append((nv_ + 1, d))
+                maybe_flip(epoch)
+                mgr_see(k2, nv_ + 1, d)
+                lines.append(f"pub {k2} {nv_ + 1} {epoch} {d}")
+                valid = c in subd
+            lines.append("tcb")
+            state["chan"] = True
+            if valid:
+                tracked[c][k] = 0
         elif mode == "v":
             k = rng.choice(KEYS)
             nv_, nd_ = newest.get(k, (0, None))
@@ -147,6 +241,7 @@ def gen_scenario(rng, nops=None):
                     continue
                 d = same[0]
             maybe_flip(epoch)
+            mgr_see(k, v, d)
             lines.append(f"pub {k} {v} {epoch} {d}")
     # final full polls: the backend has caught up with every publisher
     items = []
@@ -214,6 +309,10 @@ def oracle(lines, outs):
     epoch = ""
     prev_st = {}
     final_idx = None
+    gen = {}                     # conn -> generation of its current subscription (absent = not subscribed)
+    gen_ctr = [0]
+    broken = set()               # (conn, key) whose held bytes are undefined after a patch that did not apply
+    ptracks = []                 # deferred track requests: (conn, key, version, generation at request time)
     for i, (op, out) in enumerate(zip(lines, outs)):
         f = op.split()
         if f[0] == "reset" or op.startswith("#"):
@@ -228,6 +327,23 @@ def oracle(lines, outs):
         conns, st = parse_out(out)
         stale_prev = False
         flip = False
+        if f[0] == "sub" and not any(t.startswith("err:") for t in conns.get(f[1], [])):
+            gen_ctr[0] += 1
+            gen[f[1]] = gen_ctr[0]
+        elif f[0] == "trkd":
+            if not any(t.startswith("err:") for t in conns.get(f[1], [])):
+                ptracks.append((f[1], f[2], int(f[3]), gen.get(f[1])))
+        elif f[0] == "tcb" and ptracks:
+            c_, k_, v_, g_ = ptracks.pop(0)
+            refused = any(t.startswith("err:") for t in conns.get(c_, []))
+            if g_ is not None and gen.get(c_) == g_:
+                if not refused:
+                    tracked[(c_, k_)] = v_
+                    if v_ == 0:
+                        held.pop((c_, k_), None)
+            elif not refused and c_ in gen:
+                viol.append((f"track request of {c_} for key {k_} issued on a subscription that has ended was committed onto the current subscription",
+                             {"kind": "stale-track-committed"}, i))
         if f[0] == "trk":
             if any(t.startswith("err:") for t in conns.get(f[1], [])):
                 ctx_err = True          # the track was refused (not subscribed): nothing is tracked
@@ -235,7 +351,7 @@ def oracle(lines, outs):
                 tracked[(f[1], f[2])] = int(f[3])
                 if int(f[3]) == 0:
                     held.pop((f[1], f[2]), None)
-        elif f[0] == "resp" or f[0] == "pub":
+        elif f[0] in ("resp", "pub", "bgpub"):
             ep = f[1] if f[0] == "resp" else f[3]
             ep = "" if ep == "-" else ep
             if mode == "v" and ep != epoch and not out.startswith("nochan") and prev_st is not None and "none" != prev_st:
@@ -271,6 +387,7 @@ def oracle(lines, outs):
                     for ck in [ck for ck in tracked if ck[0] == c]:
                         tracked.pop(ck)
                         held.pop(ck, None)
+                    gen.pop(c, None)
                     continue
                 if t.startswith("err:") or t == "?":
                     continue
@@ -292,11 +409,16 @@ def oracle(lines, outs):
                     viol.append((f"version pushed to {c} for key {k} does not increase: {tracked[(c, k)]} then {v}",
                                  {"kind": "version-not-increasing", "delta": kind == "D"}, i))
                 tracked[(c, k)] = v
+                if res.startswith("!") and (c, k) in broken:
+                    continue        # consequence of an earlier failed patch: the bytes held are already undefined
                 if res.startswith("!"):
+                    broken.add((c, k))
                     viol.append((f"delta push {k} v{v} to {c} does not apply to the bytes the connection holds ({res})",
                                  {"kind": "delta-not-applicable", "mode": mode, "keep": keep, "stale_prevdata": stale_prev}, i))
                     continue
                 held[(c, k)] = res
+                if kind == "F":
+                    broken.discard((c, k))
                 if mode == "v":
                     if res not in pairs.get(k, {}).get(v, set()):
                         viol.append((f"pushed pair (v{v}, {res}) for key {k} was never provided together",
@@ -315,6 +437,7 @@ def oracle(lines, outs):
             for ck in [ck for ck in tracked if ck[0] == f[1]]:
                 tracked.pop(ck)
                 held.pop(ck, None)
+            gen.pop(f[1], None)
         elif f[0] == "rvk":
             for ck in [ck for ck in tracked if ck[1] == f[1]]:
                 tracked.pop(ck)
